@@ -58,6 +58,8 @@ class _WFile:
         self.buf = bytearray()
         self.closed = False
         self.name = path
+        if "x" in mode and _os.path.exists(path):
+            raise FileExistsError(errno.EEXIST, "File exists", path)
         fs.op("open-truncate", path)
         self.real = None
         if not fs.frozen:
